@@ -307,6 +307,12 @@ func (r *receiver) run(ctx context.Context) error {
 					return errors.Errorf("invalid file request %d", p.ID)
 				}
 				if len(p.Data) == 0 {
+					// the terminator ends the request: whatever comes for
+					// this id afterwards was not requested (the writer
+					// goroutine forgets the id too, but only later)
+					r.muPipes.Lock()
+					delete(r.pipes, p.ID)
+					r.muPipes.Unlock()
 					if err := pw.Close(); err != nil {
 						return err
 					}
